@@ -5,7 +5,7 @@ use crate::gen::*;
 use crate::util::*;
 use serde_json::json;
 
-fn fnv(data: &[u8]) -> String {
+pub fn fnv(data: &[u8]) -> String {
     let mut h: u64 = 0xcbf29ce484222325;
     for &b in data {
         h ^= b as u64;
